@@ -145,8 +145,11 @@ class Extractor:
 
     # ------------------------------------------------------------------ statements
     def run(self, stmts=None):
-        for st in (self.func.node.body if stmts is None else stmts):
-            self.stmt(st)
+        try:
+            for st in (self.func.node.body if stmts is None else stmts):
+                self.stmt(st)
+        except _Returned:
+            pass
         return self
 
     def stmt(self, st):
@@ -172,7 +175,7 @@ class Extractor:
             return
         if isinstance(st, ast.Return):
             self.returns.append((st, self.expr(st.value) if st.value is not None else None))
-            return
+            raise _Returned()
         if isinstance(st, ast.If):
             if st.body and isinstance(st.body[-1], ast.Raise) and not st.orelse:
                 return
@@ -203,6 +206,11 @@ class Extractor:
             elif t.id in self.tables and not (isinstance(v, SV) and getattr(v, "table", None) is self.tables[t.id]):
                 # the name now holds something else (e.g. a transposed / sliced copy): no longer a recursion table
                 del self.tables[t.id]
+            return
+        if isinstance(t, ast.Tuple) and isinstance(v, SV) and v.labels and v.labels[0].base == "xyz" and len(t.elts) == 3:
+            # unpacking along the Cartesian-component axis: x, y, z parts
+            for k, tt in enumerate(t.elts):
+                self.bind(tt, SV(v.e.subs(c, k), v.labels[1:]), st)
             return
         if isinstance(t, ast.Tuple) and isinstance(v, tuple) and len(v) == len(t.elts):
             for tt, vv in zip(t.elts, v):
@@ -402,6 +410,11 @@ class Extractor:
         out = SV(v, labels)
         for k2, v2 in ar.items():
             out.ar.setdefault(k2, v2)
+        views = [getattr(z, "table_view", None) or ((z.table, list(range(len(z.labels)))) if getattr(z, "table", None) is not None and z.labels is not None else None)
+                 for z in (l, r)]
+        views = [w for w in views if w is not None]
+        if len(views) == 1 and isinstance(op, (ast.Mult, ast.Div)) and labels is not None and len(labels) == len(views[0][1]):
+            out.table_view = views[0]
         return out
 
     def attribute(self, e):
@@ -411,7 +424,7 @@ class Extractor:
         if d in ("np.newaxis",):
             return None
         base = self.expr(e.value)
-        if isinstance(base, ShellSym):
+        if isinstance(base, (ShellSym, ClsSym)):
             return base.attr(e.attr, self, e)
         if isinstance(base, SV):
             if e.attr == "T":
@@ -424,7 +437,9 @@ class Extractor:
                     if len(non1) == 1:
                         s = self.size_of(non1[0])
                         if s is not None:
-                            return SV(s, [])
+                            out = SV(s, [])
+                            out.from_lab = non1[0]
+                            return out
                 self.err(".size of this value", e)
             if e.attr == "shape":
                 if base.labels is None:
@@ -440,7 +455,9 @@ class Extractor:
             s = base.sizes[k]
             if s is None:
                 self.err("size of this axis is unknown", e)
-            return SV(s, [])
+            out = SV(s, [])
+            out.from_lab = base.labels[k]
+            return out
         if isinstance(base, tuple):
             i = self.expr(e.slice)
             return base[int(i.e) if isinstance(i, SV) else i]
@@ -529,7 +546,22 @@ class Extractor:
         merged = [k2 for k2 in base.ar if not any(isinstance(l.base, tuple) and l.base[0] == "ar" and l.base[1] == k2 for l in labs)]
         if merged and val.has(ARange):
             self.err("subscript of a product that already contains an np.arange factor", e)
-        return SV(val, out)
+        view = getattr(base, "table_view", None)
+        pure_slices = all(isinstance(x, ast.Slice) for x in elts)
+        # every view of an np.arange gets its own identity: the same arange may be laid along different axes of one product
+        out2 = []
+        for l in out:
+            if isinstance(l.base, tuple) and l.base[0] == "ar":
+                nid = next(self.counter)
+                self.aranges[nid] = dict(self.aranges[l.base[1]])
+                val = val.subs(ARange(sp.Integer(l.base[1])), ARange(sp.Integer(nid)))
+                out2.append(Lab(("ar", nid), l.lo, l.hi, l.unit))
+            else:
+                out2.append(l)
+        res = SV(val, out2)
+        if view is not None and pure_slices:
+            res.table_view = view
+        return res
 
     def gather(self, base, elts, idx_vals, node):
         """numpy advanced indexing with broadcasting index arrays; adjacent advanced indices put the broadcast axes in
@@ -587,6 +619,19 @@ class Extractor:
                     placed = True
                 continue
             out.append(en[1])
+        # an identity index (np.arange over the whole axis it indexes) keeps that axis: rename its label
+        ren = {}
+        pos2 = 0
+        for k, en in enumerate(entries):
+            if en[0] == "adv" and isinstance(en[1], SV) and isinstance(en[1].e, ARange):
+                aid = int(en[1].e.args[0])
+                info = self.aranges[aid]
+                src = labs[k] if k < len(labs) else None
+                if src is not None and info["start"] == 0 and not src.is_one():
+                    s1, s2 = info["size"], self.size_of(src)
+                    if s2 is not None and sp.simplify(s1 - s2) == 0:
+                        ren[("ar", aid)] = src
+        out = [ren.get(l.base, l) if isinstance(l.base, tuple) else l for l in out]
         gid = next(self.counter)
         tab = getattr(base, "table", None)
         view = getattr(base, "table_view", None)
@@ -606,7 +651,22 @@ class Extractor:
                 idx_exprs.append(ee)
             else:
                 idx_exprs.append(sp.Symbol(f"slice{k}"))
-        val = Gather(sp.Integer(gid), *idx_exprs)
+        g = Gather(sp.Integer(gid), *idx_exprs)
+        val = g
+        be = base.e
+        tsyms = be.atoms(TabSym) | be.atoms(TabRef)
+        if be != 0 and len(tsyms) == 1 and (be.atoms(ARange) or be != list(tsyms)[0]):
+            # the table was scaled as a whole before the selection: evaluate the scale factors at the selected indices
+            val = be.subs(list(tsyms)[0], g)
+            for ar in be.atoms(ARange):
+                aid = int(ar.args[0])
+                if aid not in base.ar:
+                    self.err("np.arange factor of unknown alignment in a gathered array", node)
+                frm_right, lab = base.ar[aid]
+                k = len(labs) - 1 - frm_right
+                if k < 0 or k >= len(idx_exprs) or isinstance(idx_exprs[k], sp.Symbol) and str(idx_exprs[k]).startswith("slice"):
+                    self.err("np.arange factor aligned with an axis that is not selected by an index array", node)
+                val = val.subs(ar, self.aranges[aid]["start"] + lab.lo + idx_exprs[k])
         res = SV(val, out)
         return res
 
@@ -631,6 +691,9 @@ class Extractor:
         h = self.env.get("__call__" + (short or ""))
         if h is not None:
             return h(self, e)
+        if short == "factorial2" and len(e.args) == 1:
+            v = self.expr(e.args[0])
+            return SV(sp.Function("F2")(v.e), v.labels, v.ar)
         if self.repo is not None and d:
             from .model import Func
             r = self.repo.resolve_name(self.func.module, d, self.func)
@@ -766,23 +829,30 @@ class Extractor:
                 self.err("np.zeros with a dtype in a recursion kernel", e)
             labels = []
             for k, s in enumerate(sizes):
-                src = getattr(shp[k], "size_of", None)
+                src = getattr(shp[k], "from_lab", None)
                 if s == 3 and isinstance(shp[k], SV) and shp[k].e.is_number:
                     labels.append(Lab("xyz"))
-                elif src is not None:
-                    labels.append(Lab(src))
+                elif src is not None and isinstance(src.base, tuple) and src.base[0] == "dim" and not src.lo and not src.hi:
+                    labels.append(Lab(src.base))
                 else:
                     labels.append(Lab(("tab", "?", k)))
             if len(sizes) == 1 and sizes[0] == 3:
                 return SV(sp.Integer(0), [Lab("xyz")])  # np.zeros(3): a zero vector
-            v = SV(sp.Integer(0), labels)
+            tk = next(self.counter)
+            v = SV(TabSym(sp.Integer(tk)), labels)
             v.table = Table("?", 0, sizes, labels, e)
+            self.shared.setdefault("tabsyms", {})[tk] = v.table
             return v
         if short == "arange":
             args = [self.as_int(self.expr(a), e) for a in e.args]
             start, stop = (sp.Integer(0), args[0]) if len(args) == 1 else (args[0], args[1])
             aid = next(self.counter)
             self.aranges[aid] = dict(start=start, size=stop - start)
+            if len(e.args) == 1:
+                a0 = self.expr(e.args[0])
+                fl = getattr(a0, "from_lab", None)
+                if fl is not None:
+                    self.aranges[aid]["iota_of"] = fl  # np.arange(x.shape[k]): the identity index of that axis
             return SV(ARange(sp.Integer(aid)), [Lab(("ar", aid))])
         if short in ("exp", "sqrt"):
             v = self.expr(e.args[0])
@@ -837,9 +907,18 @@ class Extractor:
                 pp = [int(q.e) for q in perm]
                 if sorted(pp) != list(range(len(x.labels))):
                     raise LabelMismatch(f"`{ast.unparse(e)[:80]}`: {pp} is not a permutation of the {len(x.labels)} axes {x.labels}", e)
-                out = SV(x.e, [x.labels[q] for q in pp], x.ar)
+                n_ax = len(pp)
+                new_ar = {}
+                for aid, (frm, lab) in x.ar.items():
+                    oldpos = n_ax - 1 - frm
+                    if 0 <= oldpos < n_ax:
+                        new_ar[aid] = (n_ax - 1 - pp.index(oldpos), lab)
+                out = SV(x.e, [x.labels[q] for q in pp], new_ar)
                 if getattr(x, "table", None) is not None:
                     out.table_view = (x.table, pp)
+                elif getattr(x, "table_view", None) is not None:
+                    t0, p0 = x.table_view
+                    out.table_view = (t0, [p0[q] for q in pp])
                 return out
         if short == "array" and e.args and isinstance(e.args[0], ast.List) and len(e.args) == 1 and not e.keywords:
             items = [self.expr(x) for x in e.args[0].elts]
@@ -859,6 +938,11 @@ class Extractor:
             self.opaque[k] = dict(node=e, arg=args[0] if args else None, kind=short)
             return v
         self.err(f"numpy function np.{short}", e)
+
+
+class TabSym(sp.Function):
+    """The generic element of a whole recursion table (used when the table is passed on / transposed / scaled as a whole)."""
+    nargs = 1
 
 
 class Stack(sp.Function):
@@ -918,6 +1002,29 @@ class ShellSym:
         ex.err(f"shell attribute `{name}` not modelled", node)
 
 
+def boys_callable(ex, e):
+    """boys_func(orders, weighted_dist): uninterpreted special function, elementwise in both arguments."""
+    a0, a1 = ex.expr(e.args[0]), ex.expr(e.args[1])
+    labels = ex.broadcast(a0, a1, e)
+    out = SV(Boys(a0.e, a1.e), labels)
+    for k2, v2 in {**a0.ar, **a1.ar}.items():
+        out.ar.setdefault(k2, v2)
+    return out
+
+
+class ClsSym:
+    """`cls` of a classmethod kernel: only its callable attributes are used."""
+
+    def attr(self, name, ex, node):
+        if name == "boys_func":
+            return boys_callable
+        ex.err(f"class attribute `{name}`", node)
+
+
+class _Returned(Exception):
+    pass
+
+
 class ShapeTuple:
     def __init__(self, sizes, labels):
         self.sizes, self.labels = sizes, labels
@@ -932,10 +1039,12 @@ class LabelMismatch(Exception):
 def linear_terms(ex, store):
     """Decompose the rhs of a store into  const + sum coef_k * TabRef_k  (must be linear in the table references)."""
     rhs = store.rhs
-    expr = sp.expand(rhs.e)
+    raw = rhs.e
+    same = [r for r in raw.atoms(TabRef) if ex.refs[int(r.args[0])]["table"] is store.table]
+    if not same:
+        return [], raw  # start value / initialisation from a previous stage
+    expr = sp.expand(raw)
     refs = sorted(expr.atoms(TabRef), key=lambda r: int(r.args[0]))
-    if not refs:
-        return [], expr
     syms = {r: sp.Symbol(f"__T{int(r.args[0])}") for r in refs}
     sub = expr.subs(syms)
     poly = sp.Poly(sub, *syms.values())
